@@ -337,7 +337,8 @@ def check_tables(rep):
             wn.options.energy.__dict__['global_efficiency'] = eff
             wn.options.energy.__dict__['global_price'] = price
             pp_price = V.real('pp_price', 0, 1)
-            wn.get_link('PP')._energy_price = pp_price
+            priced = V.choice('priced_pump', ['PP', 'HP'])          # the pump with a price of its own comes first or last in wn.pumps()
+            wn.get_link(priced)._energy_price = pp_price
             rt = V.int('report_timestep', 1, 86400)
             wn.options.time.__dict__['report_timestep'] = rt
             P = wn.pump_name_list
@@ -345,7 +346,7 @@ def check_tables(rep):
             out['energy'] = ME.pump_energy(flow[P], head, wn)
             out['cost'] = ME.pump_cost(out['energy'], wn)
             ctx = dict(head=head, pressure=pressure, demand=demand, flow=flow, pstar=pstar, elev=elev, exp=exp, T=(T._diameter, T._max_level),
-                       TVmax=TV._max_level, pts=pts, eff=eff, price=price, pp_price=pp_price, rt=rt, wn=wn)
+                       TVmax=TV._max_level, pts=pts, eff=eff, price=price, pp_price=pp_price, priced=priced, rt=rt, wn=wn)
             return V, out, ctx
         npaths = 0
         for path in symx.explore(harness, max_paths=64, timeout_s=300):
@@ -396,7 +397,7 @@ def _oracle_tables(x, conc=False):
             pw_den = x['eff'] / 100.0
             o['power'][(t, p)] = (pw_num, pw_den)
             o['energy'][(t, p)] = (pw_num * x['rt'], pw_den)
-            pr = x['pp_price'] if p == 'PP' else x['price']
+            pr = x['pp_price'] if p == x.get('priced', 'PP') else x['price']
             o['cost'][(t, p)] = (pw_num * x['rt'] * pr, pw_den)
     return o
 
@@ -433,10 +434,11 @@ def replay_tables(i):
     wn.get_curve('VC').points = pts
     wn.options.energy.global_efficiency = V.real('eff')
     wn.options.energy.global_price = V.real('price')
-    wn.get_link('PP').energy_price = V.real('pp_price')
+    priced = i.get('choice:priced_pump', 'PP')
+    wn.get_link(priced).energy_price = V.real('pp_price')
     wn.options.time.report_timestep = V.int('report_timestep')
     x = dict(head=head, pressure=pressure, demand=demand, flow=flow, pstar=pstar, elev=elev, exp=exp, T=(T.diameter, T.max_level),
-             TVmax=TV.max_level, pts=pts, eff=V.real('eff'), price=V.real('price'), pp_price=V.real('pp_price'), rt=V.int('report_timestep'), wn=wn)
+             TVmax=TV.max_level, pts=pts, eff=V.real('eff'), price=V.real('price'), pp_price=V.real('pp_price'), priced=priced, rt=V.int('report_timestep'), wn=wn)
     name = i['metric']
     if name == 'todini':
         res = MH.todini_index(head, pressure, demand, flow, wn, pstar)
